@@ -210,6 +210,26 @@ theorem derived_needs_wod_removed :
     pathOK [.call "Qube.clone", .cacheDel .shrunk, .call "Qube._set_values_", .write .values .rebind,
             .write .readonly .rebind, .cacheDel .unshrunk, .write .mask .same, .ret] = false := by decide
 
+/-! #### the derivative objects, when a mutator of the parent writes to them directly -/
+
+/-- T2 for `derivAliasTable` (regenerated): the loops `for key, deriv in self._derivs_.items(): deriv._values_ *= arg;
+    deriv._new_values_()` of the number fast paths of `*=` and `/=` (every other change of a derivative goes through
+    the derivative's own public mutators, i.e. rows of `publicTable`): as seen by the derivative object, each of
+    these paths satisfies the policy. -/
+theorem deriv_alias_policy_covers : ∀ m ∈ derivAliasTable, ∀ es ∈ m.2, pathOK es = true := by
+  have h : (derivAliasTable.all fun m => m.2.all pathOK) = true := by decide
+  intro m hm es hes
+  exact (List.all_eq_true.mp ((List.all_eq_true.mp h) m hm)) es hes
+
+/-- hence a derivative object whose cache has no stale entry still has none after its parent's `*= number` -/
+theorem deriv_alias_cache_ok (d : St) (g : Good d) (m : String × List (List Event)) (hm : m ∈ derivAliasTable)
+    (es : List Event) (hes : es ∈ m.2) (post : Facts) (fills : List (List Query)) :
+    CacheOK (execPath true post es fills d) :=
+  good_cacheOK (good_path post es fills g (deriv_alias_policy_covers m hm es hes))
+
+example : ∃ m ∈ derivAliasTable, ∃ es ∈ m.2, es.any (· == .write .values .aug) = true :=
+  ⟨_, List.mem_cons_self, _, List.mem_cons_self, by decide⟩
+
 /-! #### regression witnesses: the two defects repaired in /repo, as they were on the pinned tree -/
 
 /-- pinned `Qube.__iand__` with a Qube argument (qube.py:4070-4082 before the fix): no `cacheClear` -/
